@@ -8,10 +8,12 @@
   ints), b7e37da (casts take exactly one argument): agreement needs NO guard any more. Two boundaries are left:
     * H4 `lowerHex` — a `0X…` literal is a number in CPython and a wrapped ValueError in the folder (`startswith('0x')`): an application
       error, allowed by the property, but the reason `refuse` carries a guard (`upperhex_counterexample`);
-    * string tokens with a backslash are outside `evalPy` (`classifyStr … = other`, answer `unsupported`). `_cat` joins token TEXTS,
-      which does not commute with decoding escapes in general (`escape_counterexample`, the hazard); since 05486b1 the evaluator
-      refuses exactly the joins that would change an escape (`_joins_escape`, model `joinsEscape` / `catSafe`), and the shipped
-      rule is proved to keep the decoding (`join_decodes`, `catSafe_decodes`).
+    * H6 `noEsc` — string tokens with a backslash. `agree` covers them: a folder string is a raw body between quotes, CPython's
+      string is its decoding (`decodeEsc`), `_cat` joins TEXTS, which commutes with decoding exactly when `_joins_escape` lets the
+      join through (`join_decodes`, `catSafe_decodes`; `escape_counterexample` is the hazard plain `_cat` had before 05486b1).
+      `sound` / `refuse` and the output theorems cut them out: `int('\x31')` is 1 in CPython and a wrapped ValueError in the folder
+      (an application error, allowed), and the C++ reader of an inlined text is modelled for plain contents only.
+      Tokens with `\u`, `\U`, `\N{…}` stay outside `evalPy` (`unsupported`).
   Second observation point (the text py2cpp inlines for `Enum.Member.value`, Tranp/Model/EmitValue.lean): `output_agree`,
   `output_sound` (no guard on the expression; the type answer of Reflections must fit CPython's value).
   Helper lemmas: Tranp/Lemmas/Evaluator.lean, Tranp/Lemmas/EmitValue.lean.
@@ -24,13 +26,20 @@ import Tranp.Lemmas.PyInt
 namespace Tranp.C17
 open Tranp Tranp.Evaluator
 
-/-- If CPython evaluates `e` to `v'` (no `0X…` literal on the way), the folder returns a value of the same type and content, or
+/-- what the theorems need to know about the abstract float interpretation: `str(x)` contains no backslash, and `float(text)` rejects
+    a text that contains one (both true of CPython; the free interpretation used in the examples has them too). -/
+def FloatText {F : Type} (ops : FloatOps F) : Prop :=
+  (∀ x, (ops.toStr x).contains '\\' = false) ∧ (∀ s, s.contains '\\' = true → ops.parse s = .error .valueError)
+
+example : FloatText freeOps := ⟨fun _ => rfl, fun s h => by simp only [freeOps, h, if_true]⟩
+
+/-- If CPython evaluates `e` to `v'` (no `0X…` literal and no string token with a backslash on the way), the folder returns a value of the same type and content, or
     refuses (an application error that is not a wrapped Python exception, or the recursion limit): for every expression,
     environment, fuel and every interpretation of `float`. -/
-theorem sound {F : Type} (ops : FloatOps F) (env : Env) (fuel : Nat) (e : Expr) (venv : VEnv F) (v' : V F)
+theorem sound {F : Type} (ops : FloatOps F) (hops : FloatText ops) (env : Env) (fuel : Nat) (e : Expr) (venv : VEnv F) (v' : V F)
     (hc : Cons .strict ops env venv) (hp : evalPy .strict ops env.known venv (toPy e) = .ok v') :
-    (∃ v, execImpl ops env fuel e = .ok v ∧ Sim v v') ∨ (∃ er, execImpl ops env fuel e = .error er ∧ Refusal er) := by
-  have h := sound_core .strict ops env Refusal (fun _ h => h) (by intro h; cases h) fuel e venv v' hc hp
+    (∃ v, execImpl ops env fuel e = .ok v ∧ Sim .strict v v') ∨ (∃ er, execImpl ops env fuel e = .error er ∧ Refusal er) := by
+  have h := sound_core .strict ops env Refusal (fun _ h => h) (by intro h; cases h) (by intro h; cases h) hops.1 hops.2 fuel e venv v' hc hp
   cases hx : execImpl ops env fuel e with
   | ok v => rw [hx] at h; exact Or.inl ⟨v, rfl, h⟩
   | error er => rw [hx] at h; exact Or.inr ⟨er, rfl, h⟩
@@ -44,12 +53,14 @@ example :
     ∧ execImpl freeOps ⟨[], []⟩ 9 e = .ok (.float (.mul (.sub (.ofInt 32) (.parse ['1','.','5'])) (.ofInt 2))) := by
   decide
 
-/-- **agree** (no guard): a value of the folder and a value of CPython are the same value of the same type (strings by
-    content) — for every expression, environment, fuel and interpretation of `float`. -/
-theorem agree {F : Type} (ops : FloatOps F) (env : Env) (fuel : Nat) (e : Expr) (venv : VEnv F) (v v' : V F)
+/-- **agree** (no guard): a value of the folder and a value of CPython are the same value of the same type — a string of the folder
+    is a raw body between two quote characters and CPython's string is what that body DECODES to (`decodeEsc`: octal, `\xhh`,
+    one-character and unknown escapes; tokens with `\u`, `\U`, `\N{…}` are outside `evalPy`) — for every expression, environment,
+    fuel and interpretation of `float` with `FloatText`. -/
+theorem agree {F : Type} (ops : FloatOps F) (hops : FloatText ops) (env : Env) (fuel : Nat) (e : Expr) (venv : VEnv F) (v v' : V F)
     (hc : Cons .py ops env venv)
-    (hi : execImpl ops env fuel e = .ok v) (hp : evalPy .py ops env.known venv (toPy e) = .ok v') : Sim v v' := by
-  have h := sound_core .py ops env (fun _ => True) (fun _ _ => trivial) (fun _ => trivial) fuel e venv v' hc hp
+    (hi : execImpl ops env fuel e = .ok v) (hp : evalPy .py ops env.known venv (toPy e) = .ok v') : Sim .py v v' := by
+  have h := sound_core .py ops env (fun _ => True) (fun _ _ => trivial) (fun _ => trivial) (fun _ => trivial) hops.1 hops.2 fuel e venv v' hc hp
   rw [hi] at h
   exact h
 
@@ -63,10 +74,22 @@ example :
     ∧ evalPy .py freeOps env.known venv (toPy b) = .ok (.str ['-','2','.','5']) := by
   decide
 
+/-- non-vacuity of `agree` on escaped strings: `'a\n' + "\x41b"` folds to the token `'a\n\x41b'`, CPython has `a`, newline, `A`, `b`
+    (6 raw characters against 4 decoded ones: `Sim` relates them through `decodeEsc`); `int('\x31')` is 1 in CPython and a wrapped
+    ValueError in the folder (no value to disagree with). -/
+example :
+    let e : Expr := .chain ['o','n','_','s','u','m'] (.string ['\'','a','\\','n','\'']) [(['+'], .string ['"','\\','x','4','1','b','"'])]
+    let i : Expr := .call ['i','n','t'] [.string ['\'','\\','x','3','1','\'']]
+    execImpl freeOps ⟨[], [['i','n','t']]⟩ 5 e = .ok (.str ['\'','a','\\','n','\\','x','4','1','b','\''])
+    ∧ evalPy .py freeOps [['i','n','t']] [] (toPy e) = .ok (.str ['a','\n','A','b'])
+    ∧ execImpl freeOps ⟨[], [['i','n','t']]⟩ 5 i = .error (.fatal .valueError)
+    ∧ evalPy .py freeOps [['i','n','t']] [] (toPy i) = .ok (.int 1) := by
+  decide
+
 /-- **refuse**: when the folder fails, it refuses (OperationNotAllowed, UnresolvedSymbol, an error of type inference, the
     recursion limit) or CPython raises on `e` as well — as long as no `0X…` literal is evaluated (`hscope`: CPython's own result is
     the result with that region cut out). With `sound`/`agree`: a different value is never produced. -/
-theorem refuse {F : Type} (ops : FloatOps F) (env : Env) (fuel : Nat) (e : Expr) (venvPy venvG : VEnv F) (er : Err)
+theorem refuse {F : Type} (ops : FloatOps F) (hops : FloatText ops) (env : Env) (fuel : Nat) (e : Expr) (venvPy venvG : VEnv F) (er : Err)
     (hc : Cons .strict ops env venvG)
     (hscope : evalPy .py ops env.known venvPy (toPy e) = evalPy .strict ops env.known venvG (toPy e))
     (hi : execImpl ops env fuel e = .error er) :
@@ -75,7 +98,7 @@ theorem refuse {F : Type} (ops : FloatOps F) (env : Env) (fuel : Nat) (e : Expr)
   | error y => exact Or.inr ⟨y, rfl⟩
   | ok v' =>
     rw [hscope] at hp
-    have h := sound_core .strict ops env Refusal (fun _ h => h) (by intro h; cases h) fuel e venvG v' hc hp
+    have h := sound_core .strict ops env Refusal (fun _ h => h) (by intro h; cases h) (by intro h; cases h) hops.1 hops.2 fuel e venvG v' hc hp
     rw [hi] at h
     exact Or.inl h
 
@@ -138,7 +161,7 @@ example : ([(['A'], Expr.integer ['1']), (['B'], Expr.var ['A'] none)].map Prod.
 def soundUnder (m : Mode) : Prop :=
   ∀ (ops : FloatOps FTerm) (env : Env) (fuel : Nat) (e : Expr) (venv : VEnv FTerm) (v' : V FTerm),
     Cons m ops env venv → evalPy m ops env.known venv (toPy e) = .ok v' →
-    (∃ v, execImpl ops env fuel e = .ok v ∧ Sim v v') ∨ (∃ er, execImpl ops env fuel e = .error er ∧ Refusal er)
+    (∃ v, execImpl ops env fuel e = .ok v ∧ Sim m v v') ∨ (∃ er, execImpl ops env fuel e = .error er ∧ Refusal er)
 
 /-- `sound` / `refuse` without the guard H4 -/
 def sound_unguarded_statement : Prop := soundUnder .py
@@ -253,18 +276,22 @@ theorem int_cast_accepts_iff {F : Type} (ops : FloatOps F) (s : Str) (n : Int) :
 
 /-! ## the enum value text in the output (py2cpp.py:850-860) -/
 
+/-- the mode of the output theorems: string tokens with a backslash cut out (the C++ reader of the inlined text is modelled for
+    plain contents only), `0X…` literals allowed -/
+def outMode : Mode := ⟨false, true⟩
+
 /-- **output_agree**: whenever CPython evaluates the member value to `v'` and the type answer of Reflections fits `v'`
     (`str` exactly for strings, a bare-printed name exactly for numbers), the text `on_relay` inlines for `Enum.Member.value`,
     read back (decimal text or literal token, optionally in parentheses; text between double quotes; a float as Python's `str(x)` or a
     token `float()` reads as `x`), denotes `v'` with the same type — for every expression, environment, fuel and interpretation of
     `float`. No guard on the expression (since 61fd1e4 a string literal as whole value goes through the evaluator as well); one on
     the VALUE: a string value contains no double quote (`hq`; relay/literalize.j2 prints the content raw, `quote_in_value_counterexample`). -/
-theorem output_agree {F : Type} (ops : FloatOps F) (env : Env) (fuel : Nat) (mem : Member) (ti : TyInfo) (venv : VEnv F)
+theorem output_agree {F : Type} (ops : FloatOps F) (hops : FloatText ops) (env : Env) (fuel : Nat) (mem : Member) (ti : TyInfo) (venv : VEnv F)
     (v' : V F) (text : Str)
     (hty : mem.ty = .ok ti) (hfit : ti.fits v') (hq : ∀ c, v' = .str c → c.contains '"' = false)
-    (hc : Cons .py ops env venv) (hp : evalPy .py ops env.known venv (toPy mem.value) = .ok v')
+    (hc : Cons outMode ops env venv) (hp : evalPy outMode ops env.known venv (toPy mem.value) = .ok v')
     (he : emitValue ops env fuel mem = .ok text) : Denotes ops text v' := by
-  have h := emit_core .py ops env (fun _ => True) (fun _ _ => trivial) (fun _ => trivial) fuel mem ti venv v' hty hfit hq hc hp
+  have h := emit_core outMode ops env (fun _ => True) (fun _ _ => trivial) (fun _ => trivial) rfl hops.1 hops.2 fuel mem ti venv v' hty hfit hq hc hp
   rw [he] at h
   exact h
 
@@ -287,11 +314,11 @@ example :
 
 /-- **output_sound**: … and when `on_relay` fails instead, it is a refusal (an application error that is not a wrapped Python
     exception: OperationNotAllowed, UnresolvedSymbol, an error of type inference, the recursion limit) — with `0X…` literals cut out. -/
-theorem output_sound {F : Type} (ops : FloatOps F) (env : Env) (fuel : Nat) (mem : Member) (ti : TyInfo) (venv : VEnv F) (v' : V F)
+theorem output_sound {F : Type} (ops : FloatOps F) (hops : FloatText ops) (env : Env) (fuel : Nat) (mem : Member) (ti : TyInfo) (venv : VEnv F) (v' : V F)
     (hty : mem.ty = .ok ti) (hfit : ti.fits v') (hq : ∀ c, v' = .str c → c.contains '"' = false)
     (hc : Cons .strict ops env venv) (hp : evalPy .strict ops env.known venv (toPy mem.value) = .ok v') :
     (∃ text, emitValue ops env fuel mem = .ok text ∧ Denotes ops text v') ∨ (∃ er, emitValue ops env fuel mem = .error er ∧ Refusal er) := by
-  have h := emit_core .strict ops env Refusal (fun _ h => h) (by intro h; cases h) fuel mem ti venv v' hty hfit hq hc hp
+  have h := emit_core .strict ops env Refusal (fun _ h => h) (by intro h; cases h) rfl hops.1 hops.2 fuel mem ti venv v' hty hfit hq hc hp
   cases hx : emitValue ops env fuel mem with
   | ok text => rw [hx] at h; exact Or.inl ⟨text, rfl, h⟩
   | error er => rw [hx] at h; exact Or.inr ⟨er, rfl, h⟩
@@ -305,7 +332,7 @@ example :
 /-- `output_agree` without the guard on double quotes in a string value -/
 def output_agree_unguarded_statement : Prop :=
   ∀ (ops : FloatOps FTerm) (env : Env) (fuel : Nat) (mem : Member) (ti : TyInfo) (venv : VEnv FTerm) (v' : V FTerm) (text : Str),
-    mem.ty = .ok ti → ti.fits v' → Cons .py ops env venv → evalPy .py ops env.known venv (toPy mem.value) = .ok v' →
+    mem.ty = .ok ti → ti.fits v' → Cons outMode ops env venv → evalPy outMode ops env.known venv (toPy mem.value) = .ok v' →
     emitValue ops env fuel mem = .ok text → Denotes ops text v'
 
 /-- … is false on the current code (finding `output-unescaped-double-quote`): the enum value `'say "hi"'` (also `"x" + 'say "hi"'`,
